@@ -69,53 +69,63 @@ Definition box_exit_points (dx dy dz : R) (v d : vec3) : option (vec3 * vec3) :=
   box_loop dx dy dz v d box_faces (None, None).
 
 (* ------------------------------------------------------------------------------------------
-   CylindricalGenerator.get_exit_points  (transliteration; see the source for the formulas)
+   CylindricalGenerator.get_exit_points (parametric form):
+
+     h = sqrt(d_x^2 + d_y^2);  c = v_x^2 + v_y^2 - dr^2
+     if h != 0:  u = d_xy / h;  b = v_xy . u;  raise if b^2 < c
+                 for s in (-b - sqrt(b^2-c), -b + sqrt(b^2-c)):   (enters, exits)
+                     candidate (s/h, [v_x + s u_x, v_y + s u_y, v_z + s d_z / h])
+     elif c > 0: raise
+     if d_z != 0: for z in (entering cap, leaving cap) = (0, -dz) if d_z < 0 else (-dz, 0):
+                     candidate ((z - v_z)/d_z, [v_x + (z-v_z) d_x/d_z, v_y + (z-v_z) d_y/d_z, z])
+     elif v_z > 0 or v_z < -dz: raise
+     raise if there is no entering or no leaving candidate
+     t_in, enter = max(enters by t) (first maximal); t_out, exit = min(exits by t) (first minimal)
+     raise unless t_in <= 0 <= t_out
    ------------------------------------------------------------------------------------------ *)
-Definition cyl_side_points (dr : R) (v d : vec3) : vec3 * vec3 :=
-  if Reqb (vx d) 0 then
-    let x0 := vx v in
-    let y0 := - sqrt (dr ^ 2 - x0 ^ 2) in
-    let z0 := vz v + (y0 - vy v) * vz d / vy d in
-    let x1 := vx v in
-    let y1 := sqrt (dr ^ 2 - x1 ^ 2) in
-    let z1 := vz v + (y1 - vy v) * vz d / vy d in
-    ((x0, y0, z0), (x1, y1, z1))
-  else
-    let slope := vy d / vx d in
-    let a := 1 + slope ^ 2 in
-    let b := vy v - slope * vx v in
-    let x0 := (- (slope * b + sqrt ((- (b ^ 2)) + a * dr ^ 2))) / a in
-    let y0 := (vy v - slope * (vx v + sqrt ((- (b ^ 2)) + a * dr ^ 2))) / a in
-    let z0 := vz v + (x0 - vx v) * vz d / vx d in
-    let x1 := ((- slope) * b + sqrt ((- (b ^ 2)) + a * dr ^ 2)) / a in
-    let y1 := (vy v + slope * ((- vx v) + sqrt ((- (b ^ 2)) + a * dr ^ 2))) / a in
-    let z1 := vz v + (x1 - vx v) * vz d / vx d in
-    ((x0, y0, z0), (x1, y1, z1)).
+Definition cand : Type := (R * vec3)%type.
+Inductive crossing := CErr | CNone | CPair (e x : cand).
 
-(* intersections with the top / bottom supersede a side intersection outside the height range *)
-Definition cyl_cap (dz : R) (v d pt : vec3) : vec3 :=
-  let zc := if Rgtb (vz pt) 0 then Some 0 else if Rltb (vz pt) (- dz) then Some (- dz) else None in
-  match zc with
-  | None => pt
-  | Some z => (vx v + (z - vz v) * vx d / vz d, vy v + (z - vz v) * vy d / vz d, z)
-  end.
+Definition cyl_side (dr : R) (v d : vec3) : crossing :=
+  let h := sqrt (vx d ^ 2 + vy d ^ 2) in
+  let c := vx v ^ 2 + vy v ^ 2 - dr ^ 2 in
+  if negb (Reqb h 0) then
+    let ux := vx d / h in
+    let uy := vy d / h in
+    let b := vx v * ux + vy v * uy in
+    if Rltb (b ^ 2) c then CErr
+    else
+      let s0 := - b - sqrt (b ^ 2 - c) in
+      let s1 := - b + sqrt (b ^ 2 - c) in
+      CPair (s0 / h, (vx v + s0 * ux, vy v + s0 * uy, vz v + s0 * vz d / h))
+            (s1 / h, (vx v + s1 * ux, vy v + s1 * uy, vz v + s1 * vz d / h))
+  else if Rgtb c 0 then CErr else CNone.
 
-(* np.all(P((pt[nonzero]-vertex[nonzero])/direction[nonzero])), nonzero = direction != 0 *)
-Definition ratios_all (P : R -> bool) (v d pt : vec3) : bool :=
-  forallb (fun i => Reqb (vnth d i) 0 || P ((vnth pt i - vnth v i) / vnth d i)) [0%nat; 1%nat; 2%nat].
+Definition cap_cand (v d : vec3) (z : R) : cand :=
+  ((z - vz v) / vz d, (vx v + (z - vz v) * vx d / vz d, vy v + (z - vz v) * vy d / vz d, z)).
 
-Definition cyl_sort (v d pt : vec3) (st : box_state) : box_state :=
-  if ratios_all (fun r => Rltb r 0) v d pt then (Some pt, snd st)
-  else if ratios_all (fun r => Rgtb r 0) v d pt then (fst st, Some pt)
-  else if ratios_all (fun r => Reqb r 0) v d pt then
-    ((match fst st with None => Some pt | s => s end), (match snd st with None => Some pt | s => s end))
-  else st.
+Definition cyl_caps (dz : R) (v d : vec3) : crossing :=
+  if negb (Reqb (vz d) 0) then
+    CPair (cap_cand v d (if Rltb (vz d) 0 then 0 else - dz))
+          (cap_cand v d (if Rltb (vz d) 0 then - dz else 0))
+  else if Rgtb (vz v) 0 || Rltb (vz v) (- dz) then CErr else CNone.
+
+(* max / min by the line parameter over [side; cap]: the first extremal element *)
+Definition later (a b : cand) : cand := if Rltb (fst a) (fst b) then b else a.
+Definition earlier (a b : cand) : cand := if Rltb (fst b) (fst a) then b else a.
+
+Definition cyl_pick (e x : cand) : option (vec3 * vec3) :=
+  if Rleb (fst e) 0 && Rleb 0 (fst x) then Some (snd e, snd x) else None.
 
 Definition cyl_exit_points (dr dz : R) (v d : vec3) : option (vec3 * vec3) :=
-  let '(p0, p1) := cyl_side_points dr v d in
-  let st0 := cyl_sort v d (cyl_cap dz v d p0) (None, None) in
-  let st1 := cyl_sort v d (cyl_cap dz v d p1) st0 in
-  both_some st1.
+  match cyl_side dr v d, cyl_caps dz v d with
+  | CErr, _ => None
+  | _, CErr => None
+  | CNone, CNone => None
+  | CPair e x, CNone => cyl_pick e x
+  | CNone, CPair e x => cyl_pick e x
+  | CPair e x, CPair e' x' => cyl_pick (later e e') (earlier x x')
+  end.
 
 (* ------------------------------------------------------------------------------------------
    Generator.create_event: every throw increments count; without shadowing the first throw is
